@@ -7,7 +7,7 @@ import gen as G
 import verde as vd
 
 ID = "C18"
-TRANSLATED = "grid"        # Gen/Grid.lean (grid_to_table, Dataset branch) is regenerated from /repo and bridged to the model in Props/C18.lean
+TRANSLATED = "makegrid"    # Gen/Grid.lean (grid_to_table, Dataset branch) and Gen/MakeGrid.lean (make_xarray_grid, meshgrid_to_1d, check_extra_coords_names) are regenerated from /repo and bridged to the model in Props/C18.lean
 FILES = ["verde/utils.py", "verde/base/utils.py"]
 RULE = ("corpus + seeded grids (shapes 1..7 x 1..7 incl. single row/column, non-uniform strictly increasing axes, 1..4 variables with all-distinct "
         "values, 0..3 extra coordinates, custom dims) through make_xarray_grid (1-D or 2-D coordinates), make_xarray_grid->grid_to_table round trip, "
